@@ -20,7 +20,7 @@ Your task: write ONE realistic change (a bug a maintainer could plausibly introd
   (a) the tree still compiles (cmake + ninja, gcc), and
   (b) the repository's existing stable test suite still passes: these are the 42 `SvtAv1ApiTests` cases (EncApiTest.*, EncApiDeathTest.*, EncParam*Test.run_paramter_check except the ones that fail on the unchanged tree too). Build and run them with:
         cmake -G Ninja -S {wt} -B {wt}/_b -DCMAKE_BUILD_TYPE=Release -DBUILD_TESTING=ON -DBUILD_APPS=ON > /dev/null && ninja -C {wt}/_b SvtAv1ApiTests SvtAv1EncApp SvtAv1DecApp
-        {wt}/Bin/Release/SvtAv1ApiTests   (compare its pass/fail list with the same run on the unchanged worktree: `git stash` / `git stash pop`; tests failing on the unchanged tree do not count)
+        {wt}/Bin/Release/SvtAv1ApiTests   (compare its pass/fail list with the same run on the unchanged worktree: save your change with `git diff -- Source > /tmp/<your-worktree-name>.patch`, `git checkout -- Source`, rebuild, run, then `git apply` the patch again -- do NOT use `git stash`, the stash is shared with other worktrees; tests failing on the unchanged tree do not count)
       (do NOT build SvtAv1UnitTests, it takes very long), and
   (c) the change needs something SPECIFIC to manifest — a particular thread interleaving, a fault at a particular point, a multi-step sequence of operations, an unusual input/configuration or size, a long stream, or two cooperating sites — i.e. NOT something every ordinary short encode (e.g. `SvtAv1EncApp -i in.yuv -w 64 -h 64 -n 10 --preset 8 -b out.ivf`) would expose at once. Subtle is better than blatant; but it must be a genuine violation of the property as stated, not of something else.
 
